@@ -81,6 +81,14 @@ def run_build_case(rng, res: CaseResult, props, feat=None, inject=None, extra_st
             res.count('inject_not_applicable')
             return None
     ref = Ref(spec, root, parameter_mode=parameter_mode)
+    if not parameter_mode:
+        # name mode shares one task object between all mounts of one config file (results are addressed by config name): such trees are outside
+        seen_fp = set()
+        for (ns_, file_, part_) in ref.instances:
+            if (file_, part_) in seen_fp:
+                res.count('name_mode_rejects_same_file_twice')
+                return None
+            seen_fp.add((file_, part_))
     if inject and ref.error is None:
         res.count('inject_ineffective')     # the mutated class is not instantiated by this root (excluded / other part): a valid spec
         injected = None
